@@ -1,0 +1,45 @@
+//go:build verif
+
+// Contracts for the query helpers of internal/http_api (C10, area J), checked by /verif/cmd/nsqvc. Comment-only file.
+// jPlainErr / jErrText: the text of an error made by errors.New (lib/trusted/std.spec, .trusted/jhttp.spec).
+
+package http_api
+
+// Every key of a parsed query has at least one value (url.ParseQuery appends per occurrence; lib/trusted/http.spec).
+//@ pred jValuesOK(v url.Values) := forall k string :: {v[k]} has(v, k) ==> len(v[k]) >= 1
+
+// NewReqParams: the parsed query plus the whole body; nil on failure (query does not parse, or the body cannot be read).
+// jReqParams / jReqErr: the result of the most recent call (read by the handlers' contracts in nsqd).
+//@ ghost jReqParams *ReqParams
+//@ ghost jReqErr error
+//@ ghostgroup jReqParams, jReqErr, mRP, mRPErr
+// (the contracts of NewReqParams / Get / getter.Get / GetTopicChannelArgs are in zz_contracts_mreq_verif.go and mlookupd.spec; they also
+//  maintain jReqParams / jReqErr and carry the error-text clauses of this area)
+
+// Get: the FIRST value of the key; an error (and "") iff the key is absent.
+
+// The unexported interface `getter` has one implementation in the program, *ReqParams (nsqd and nsqlookupd pass nothing else):
+// a call through it is a call of (*ReqParams).Get above. Assumed dispatch; the receiver being a *ReqParams is a PRECONDITION, so
+// it is checked at every call site of GetTopicChannelArgs.
+//@ fn jRP(rp getter) *ReqParams := unbox(rp, "*ReqParams")
+//@ pred jIsReqParams(rp getter) := dyntype(rp) == typetag("*ReqParams") && jRP(rp) != nil && jValuesOK(jRP(rp).Values)
+
+// GetTopicChannelArgs: the validation table of (topic, channel), first failure wins:
+//   no `topic`                              -> MISSING_ARG_TOPIC
+//   first `topic` value not a valid name    -> INVALID_ARG_TOPIC
+//   no `channel`                            -> MISSING_ARG_CHANNEL
+//   first `channel` value not a valid name  -> INVALID_ARG_CHANNEL
+//   otherwise the two first values, nil
+//@ pred jTopicArgOK(v url.Values) := has(v, "topic") && validName(v["topic"][0])
+//@ pred jChannelArgOK(v url.Values) := has(v, "channel") && validName(v["channel"][0])
+//@ pred jErrIs(e error, text string) := e != nil && jPlainErr(e) && jErrText(e) == text
+
+// RespondV1: exactly one status line is written, and it is the code asked for - except that a 200 whose payload cannot be
+// marshalled becomes a 500 (jHdrWrites / jLastStatus / jLastStatusW: .trusted/jhttp.spec, ResponseWriter.WriteHeader).
+//@ func RespondV1(w http.ResponseWriter, code int, data interface{})
+//@   props C10
+//@   requires w != nil
+//@   ensures[one-status] jHdrWrites == old(jHdrWrites) + 1 && jLastStatusW == w
+//@   ensures[status] jLastStatus == code || (code == 200 && jLastStatus == 500)
+//@   ensures[errors-keep-their-code] code != 200 ==> jLastStatus == code
+//@   modifies jHdrWrites, jLastStatus, jLastStatusW
